@@ -52,7 +52,7 @@ PROPS['C16'] = dict(
          'implementation\'s answers. non-trivial = node has a repeated slot or a binder; distinct = by hash of the case line',
     trusted_base=['modelled, not verified: payload FromStr/Display impls (u32, i64, bool, char, Symbol), VecSet ordering'],
     assumptions=COMMON_ASSUME + ['the derive macro is exercised through seven concrete define_language! instances built from /repo/slotted-egraphs-derive (patched in)'],
-    pending_theorems=['weakShape_apply (under NoCapture)', 'weakShape_eq_iff (converse of weakShape_rename)', 'fromSyntax_toSyntax', 'bijection component of weakShape_rename (the states are proved to agree along the renaming: weakShape_rename_state)'],
+    pending_theorems=['weakShape_apply (under NoCapture)', 'weakShape_eq_iff (converse of weakShape_rename)', 'bijection component of weakShape_rename (the states are proved to agree along the renaming: weakShape_rename_state)'],
 )
 
 PROPS['C18'] = dict(
